@@ -326,7 +326,13 @@ def rand_iexpr(rng, vars_, depth=0, bad=0.0):
         if vars_ and rng.random() < 0.5:
             return ('v', rng.choice(vars_))
         return ('n', rng.randint(0, 3))
-    return (rng.choice(['+', '-']), rand_iexpr(rng, vars_, depth + 1, bad), rand_iexpr(rng, vars_, depth + 1, bad))
+    # at most one operand of a binary operator mentions variables: values then grow linearly with the
+    # number of steps and stay far from the 32/53-bit limits of the real datamodels
+    a = rand_iexpr(rng, vars_, depth + 1, bad)
+    b = rand_iexpr(rng, [], depth + 1, bad)
+    if rng.random() < 0.5:
+        a, b = b, a
+    return (rng.choice(['+', '-']), a, b)
 
 
 def rand_bexpr(rng, vars_, sids, depth=0, bad=0.0, only_in=False):
